@@ -39,3 +39,14 @@ Definition euler_at (k : R) (rho u P e : R -> R -> R) (r t : R) : Prop :=
 Definition euler_heat_at (k K0 alpha beta : R) (rho u T P e : R -> R -> R) (r t : R) : Prop :=
   mass_eq k rho u r t /\ momentum_eq rho u P r t /\
   exists F, is_heat_flux K0 alpha beta rho T F t /\ energy_eq k rho u P e F r t.
+
+(* heat flux of a temperature field that is a power law in r (log-derivative form) *)
+Definition powerlaw_flux (K0 alpha beta p : R) (rho T : R -> R -> R) : R -> R -> R :=
+  fun r t => - K0 * Rpower (rho r t) alpha * Rpower (T r t) (beta + 3) * (p / r * T r t).
+
+Lemma heat_flux_powerlaw : forall K0 alpha beta p rho T t,
+  (forall r, 0 < r -> is_derive (fun x => T x t) r (p / r * T r t)) ->
+  is_heat_flux K0 alpha beta rho T (powerlaw_flux K0 alpha beta p rho T) t.
+Proof.
+  intros K0 alpha beta p rho T t H r Hr. exists (p / r * T r t). split; [apply H; exact Hr | reflexivity].
+Qed.
